@@ -48,6 +48,18 @@ func (s *badgerStore) Close() error {
 	return s.db.Close()
 }
 
+// update runs fn in a read-write transaction. Badger transactions are
+// optimistic: when a concurrent transaction commits a key this one has read,
+// the commit fails with ErrConflict and nothing is written, so the transaction
+// is simply run again. fn must not keep state across attempts.
+func (s *badgerStore) update(fn func(txn *badger.Txn) error) error {
+	for {
+		if err := s.db.Update(fn); err != badger.ErrConflict {
+			return err
+		}
+	}
+}
+
 func (s *badgerStore) CheckAndSaveNonce(ID string, nonce int64) error {
 	// If nonceExpire is set, nonce should be within nonceExpire of now.
 	if s.nonceExpire > 0 {
@@ -57,7 +69,7 @@ func (s *badgerStore) CheckAndSaveNonce(ID string, nonce int64) error {
 		}
 	}
 	key := []byte(fmt.Sprintf("vip:nonce:%s", ID))
-	return s.db.Update(func(txn *badger.Txn) error {
+	return s.update(func(txn *badger.Txn) error {
 		var lastNonce int64
 		if err := getItem(txn, key, &lastNonce); err == nil {
 			if lastNonce >= nonce {
@@ -116,7 +128,7 @@ func (s *badgerStore) GetNodeBalance(nodeID store.NodeID) (store.Balance, error)
 // that get migrated later.
 func (s *badgerStore) AddNodeBalance(nodeID store.NodeID, credit *big.Int) error {
 	accountKey := []byte(fmt.Sprintf("vip:account:%s", nodeID))
-	return s.db.Update(func(txn *badger.Txn) error {
+	return s.update(func(txn *badger.Txn) error {
 		var account store.Account
 		balanceKey := []byte(fmt.Sprintf("vip:trial:%s", nodeID))
 		if err := getItem(txn, accountKey, &account); err == badger.ErrKeyNotFound {
@@ -158,7 +170,7 @@ func (s *badgerStore) GetAccountBalance(account store.Account) (store.Balance, e
 
 // AddNodeBalance adds credit to an account balance. (Can be negative)
 func (s *badgerStore) AddAccountBalance(account store.Account, credit *big.Int) error {
-	return s.db.Update(func(txn *badger.Txn) error {
+	return s.update(func(txn *badger.Txn) error {
 		balanceKey := []byte(fmt.Sprintf("vip:balance:%s", account))
 		var balance store.Balance
 		if err := getItem(txn, balanceKey, &balance); err == badger.ErrKeyNotFound {
@@ -177,7 +189,7 @@ func (s *badgerStore) AddAccountBalance(account store.Account, credit *big.Int) 
 // balance. This should migrate any existing node's balance credit to the
 // account.
 func (s *badgerStore) AddAccountNode(account store.Account, nodeID store.NodeID) error {
-	return s.db.Update(func(txn *badger.Txn) error {
+	return s.update(func(txn *badger.Txn) error {
 		// Check nodeID
 		nodeKey := []byte(fmt.Sprintf("vip:node:%s", nodeID))
 		if !hasKey(txn, nodeKey) {
@@ -353,7 +365,7 @@ func (s *badgerStore) SetNode(n store.Node) error {
 		return store.ErrMalformedNode
 	}
 	key := []byte(fmt.Sprintf("vip:node:%s", n.ID))
-	return s.db.Update(func(txn *badger.Txn) error {
+	return s.update(func(txn *badger.Txn) error {
 		return setItem(txn, key, &n)
 	})
 }
@@ -401,7 +413,11 @@ func (s *badgerStore) UpdateNodePeers(nodeID store.NodeID, peers []string, block
 	now := time.Now()
 	var node store.Node
 	nodePeers := map[store.NodeID]time.Time{}
-	err = s.db.Update(func(txn *badger.Txn) error {
+	err = s.update(func(txn *badger.Txn) error {
+		// Start from scratch on every attempt.
+		inactive = nil
+		nodePeers = map[store.NodeID]time.Time{}
+
 		// Update this node's LastSeen
 		if err := getItem(txn, nodeKey, &node); err == badger.ErrKeyNotFound {
 			return store.ErrUnregisteredNode
